@@ -4,7 +4,9 @@ Expected: exit 0.  A non-zero exit is a broken correspondence on code where the 
 protocol (reported as no-failing-input-found) but worth knowing; results go to benign/RESULTS.json."""
 import json, os, subprocess, sys, tempfile, shutil, time
 VERIF = os.path.dirname(os.path.dirname(os.path.abspath(__file__)))
-EXTRA = {"C01": ["C06", "C11"], "C11": ["C01"], "C12": ["C01"], "C07": ["C09"], "C05": ["C14"], "C02": ["C03", "C17"]}
+EXTRA = {"C01": ["C06", "C11"], "C11": ["C01"], "C12": ["C01"], "C07": ["C09"], "C05": ["C14"], "C02": ["C03", "C17"],
+         "C03": ["C17", "C02"], "C04": ["C07"], "C08": ["C09", "C07"], "C09": ["C08", "C07"], "C10": ["C04"], "C13": ["C18", "C19"],
+         "C14": ["C05"], "C15": ["C01"], "C16": [], "C17": ["C03", "C02"], "C18": ["C13"], "C19": ["C13", "C03"], "C20": ["C01"]}
 def sh(cmd, **kw): return subprocess.run(cmd, capture_output=True, text=True, **kw)
 res_path = os.path.join(VERIF, "benign", "RESULTS.json")
 res = json.load(open(res_path)) if os.path.exists(res_path) else {}
